@@ -1421,8 +1421,9 @@ class _Idioms(ast.NodeTransformer):
     """np.flatnonzero(m) and np.nonzero(m)[0] are spelled np.where(m)[0] (identical on the 1-D masks they are applied to in
     this code base; stated as an assumption in DESIGN.md)."""
 
-    def __init__(self):
+    def __init__(self, rc_=False):
         self.n = 0
+        self.rc_ = rc_      # the tree uses np.r_ / np.c_ where the pinned tree does: spell concatenations the same way
 
     def visit_Call(self, node):
         node = self.generic_visit(node)
@@ -1440,6 +1441,23 @@ class _Idioms(ast.NodeTransformer):
             inner = ast.Call(func=ast.Attribute(value=f.value, attr="isclose", ctx=ast.Load()), args=node.args, keywords=node.keywords)
             return ast.copy_location(ast.Call(func=ast.Attribute(value=ast.Name(id=f.value.id, ctx=ast.Load()), attr="all", ctx=ast.Load()),
                                               args=[ast.copy_location(inner, node)], keywords=[]), node)
+        if isinstance(f, ast.Attribute) and f.attr in ("concatenate", "hstack") and isinstance(f.value, ast.Name) and f.value.id in ("np", "numpy", "gp") \
+                and len(node.args) == 1 and isinstance(node.args[0], (ast.Tuple, ast.List)) and len(node.args[0].elts) >= 2 and self.rc_:
+            # np.concatenate((a, b)) == np.r_[a, b] ;  np.concatenate((A, B), axis=1) == np.c_[A, B]  (a one-element list literal [k] is the scalar k in r_)
+            ax = [k for k in node.keywords if k.arg == "axis"]
+            other = [k for k in node.keywords if k.arg != "axis"]
+            axv = ax[0].value.value if ax and isinstance(ax[0].value, ast.Constant) else (0 if not ax else "?")
+            if not other and axv in (0, 1, None) and not (f.attr == "hstack" and ax):
+                elts = []
+                for x in node.args[0].elts:
+                    if isinstance(x, (ast.List, ast.Tuple)) and len(x.elts) == 1 and isinstance(x.elts[0], (ast.Constant, ast.Name, ast.Call, ast.Attribute)) and axv in (0, None):
+                        elts.append(x.elts[0])
+                    else:
+                        elts.append(x)
+                self.n += 1
+                attr = "c_" if axv == 1 else "r_"
+                return ast.copy_location(ast.Subscript(value=ast.Attribute(value=ast.Name(id=f.value.id, ctx=ast.Load()), attr=attr, ctx=ast.Load()),
+                                                       slice=ast.Tuple(elts=elts, ctx=ast.Load()), ctx=ast.Load()), node)
         if isinstance(f, ast.Attribute) and f.attr == "flatnonzero" and len(node.args) == 1 and not node.keywords:
             self.n += 1
             w = ast.Call(func=ast.Attribute(value=f.value, attr="where", ctx=ast.Load()), args=node.args, keywords=[])
